@@ -4,6 +4,9 @@ Model of `src/pbd.rs` (`PreBoneDeformer::from_existing`, `get_deform_matrices`) 
 `strings_parser` in `src/common_file_operations.rs`.
 i16 fields are kept as u16 bit patterns; `x as usize` of a negative i16 / i32 is a huge index (never in
 range), exactly as the sign-extending cast behaves.
+`get_deform_matrices` mirrors the code with the fixes "returns None for link, parent and deformer indices
+outside the tables instead of panicking" and "returns None on cyclic parent links instead of looping
+forever" (the step counter).
 -/
 namespace Physis.Pbd
 
@@ -131,19 +134,24 @@ def fromExisting (buffer : Bytes) : Outcome Header :=
   | .diverges => .diverges
   | .unmodelled => .unmodelled
 
-/-- the `loop` of `get_deform_matrices`; `fuel` bounds the number of iterations (`diverges` when it runs
-out: with `links.len() + 1` iterations every reachable link has been seen, so the Rust loop never ends) -/
+/-- the `loop` of `get_deform_matrices`.  `fuel` = how many more parent steps the code allows:
+`steps += 1; if steps >= self.header.links.len() { return None }` — with `links.len() − 1` at the
+start, the `k`-th iteration may step to a parent iff `k < links.len()` ("a chain of parents visits
+every link at most once; a longer walk means the links are cyclic").  A link or item index outside
+its table is `None` (`.get(..)?`). -/
 def walk (h : Header) (to : UInt16) : Nat → Item → Link → List Bone → Outcome (List Bone)
-  | 0, _, _, _ => .diverges
+  | 0, item, next, bones =>
+    let bones := bones ++ item.bones
+    if next.parent = 0xFFFF then .ok bones else .none
   | fuel + 1, item, next, bones =>
     -- for i in 0..item.deformer.bone_count { bones.push(..) }
     let bones := bones ++ item.bones
     if next.parent = 0xFFFF then .ok bones else
     match h.links[i16AsUsize next.parent]? with
-    | none => .panic
+    | none => .none
     | some next' =>
     match h.items[next'.deformerIndex.toNat]? with
-    | none => .panic
+    | none => .none
     | some item' =>
     if item'.bodyId = to then .ok bones else walk h to fuel item' next' bones
 
@@ -154,9 +162,9 @@ def getDeformMatrices (h : Header) (fromId to : UInt16) : Outcome (List Bone) :=
   | none => .none
   | some item =>
   match h.links[i16AsUsize item.linkIndex]? with
-  | none => .panic
+  | none => .none
   | some next =>
   if next.nextSibling = 0xFFFF then .none else
-  walk h to (h.links.length + 1) item next []
+  walk h to (h.links.length - 1) item next []
 
 end Physis.Pbd
